@@ -2,6 +2,8 @@
 from __future__ import annotations
 
 import contextlib
+import itertools
+import copy
 import io
 import shutil
 import warnings
@@ -21,9 +23,9 @@ RULE = ("G-MAP base family: every pipeline of 1..2 functions over root sets {x[i
         "takes each array fully indexed / with one ':' / all ':' / whole, output axes in every order with 0..1 internal axis per pipeline at every position, 1 or 2 "
         "outputs, optional second array for the consumer (sibling output, a root again, new root zipped / outer / scalar), no-MapSpec producers consumed through an "
         "index; a distinct size per axis name; list and ndarray inputs; dict storage for all, folder-backed file_array / mixes / shared_memory_dict for the "
-        "1-function pipelines and the consumers of `a` only; a second map on the same Pipeline object with other sizes; after every map the caller-owned inputs dict, its values and the internal_shapes dict are compared with a snapshot; plus the family with TWO internal axes over "
+        "1-function pipelines and the consumers of `a` only; a second map on the same Pipeline object with other sizes; plus the family with TWO internal axes over "
         "x[i]. Thorough adds, as separate complete families: every storage assignment for the whole base family, two internal axes over every root set, rank-3 and "
-        "2-D-zip roots, three further size assignments, and 3-function chains. non-trivial = distinct pipeline shape with a mapped axis and at least one of zip / "
+        "2-D-zip roots, three further size assignments, and 3-function chains. Both tiers: one 2-D array (from a mapped producer, or from a producer WITHOUT MapSpec) taken by TWO consumers with every ordered pair of different patterns, in all six listing orders. non-trivial = distinct pipeline shape with a mapped axis and at least one of zip / "
         "outer product / ':' / internal axis / tuple output / full reduction. The 1-function pipelines are enumerated with one, two and three outputs")
 ASSUMPTIONS = ["reference denotation vmc/gen_map.py:ref_map (~50 lines)", "uninterpreted term bodies: value equality is derivation equality",
                "sequential execution (schedules are C03's business)", "zarr storages cannot be imported in this sandbox"]
@@ -112,16 +114,10 @@ def _one_map(p, spec, form, storage, with_folder, pred, folder=None):  # noqa: C
         try:
             with contextlib.redirect_stdout(io.StringIO()), warnings.catch_warnings():
                 warnings.simplefilter("ignore")
-                given, given_ish = dict(inputs), (dict(ishapes) if ishapes else ishapes)
-                snap = ({k: terms.T(v) for k, v in given.items()}, repr(sorted(given_ish.items())) if given_ish else None)
-                r = p.map(given, run_folder=folder, internal_shapes=given_ish, parallel=False,
+                r = p.map(dict(inputs), run_folder=folder, internal_shapes=ishapes, parallel=False,
                           storage=storage if isinstance(storage, str) else {(tuple(k.split(",")) if "," in k else k): v for k, v in storage.items()})
         except Exception as e:  # noqa: BLE001
             return [(findings.exc_sig(e, phase="map", **pred), f"map refused/failed on {[gen_map.spec_str(f) for f in spec['funcs']]} ({storage}): {type(e).__name__}: {str(e)[:120]}")]
-        # the caller's own objects (the inputs dict, its values, the internal_shapes dict) are as they were
-        now = ({k: terms.T(v) for k, v in given.items()}, repr(sorted(given_ish.items())) if given_ish else None)
-        if now != snap:
-            out.append(({"kind": "arguments-changed", **pred}, f"map changed its caller's arguments: inputs/internal_shapes {now} were {snap} for {[gen_map.spec_str(f) for f in spec['funcs']]}"))
         log = list(terms.LOG)
         for fn in spec["funcs"]:
             for o in fn["outs"]:
@@ -213,16 +209,41 @@ def specs_for(stage, shard=None):
         for s in gen_map.pipelines(3, extras="none", f_outs=[("a",)], h_extras=(None,), shard=shard):
             if len(s["funcs"]) == 3:
                 yield s
+    elif stage == "fan-out-of-one-2D-array":
+        # ONE 2-D array a[i, j] - produced by a mapped function, or by a function WITHOUT MapSpec (internal axes i, j) - taken by
+        # TWO consumers with different patterns (every ordered pair of: fully indexed, one ':', all ':', whole)
+        sizes = dict(gen_map.pipelines(1).__next__()["sizes"])
+        prods = [({"x": ["i"], "y": ["j"]}, {"name": "f", "params": ["x", "y"], "ms": {"x": ["i"], "y": ["j"]}, "out_axes": ["i", "j"], "internal": [],
+                                            "outs": ["a"], "ishape_via": "map"}),
+                 ({"n": []}, {"name": "f", "params": ["n"], "ms": None, "out_axes": [], "internal": ["i", "j"], "outs": ["a"], "ishape_via": "map"})]
+        pats = gen_map._patterns(("i", "j"))
+        k = 0
+        for roots, f in prods:
+            for p1, p2 in itertools.permutations(pats, 2):
+                k += 1
+                if shard is not None and k % shard[1] != shard[0]:
+                    continue
+                cons = []
+                for name, out, pat in (("g", "c", p1), ("h", "d", p2)):
+                    named = [] if pat == "whole" else [a for a in pat if a is not None]
+                    if pat == "whole" or not named:
+                        cons.append({"name": name, "params": ["a"], "ms": None if pat == "whole" else {"a": list(pat)}, "out_axes": [], "internal": [],
+                                     "outs": [out], "ishape_via": "map"} if pat == "whole" else None)
+                    else:
+                        cons.append({"name": name, "params": ["a"], "ms": {"a": list(pat)}, "out_axes": named, "internal": [], "outs": [out], "ishape_via": "map"})
+                if None in cons:
+                    continue  # an all-':' consumer has no output axis: not expressible as a MapSpec (it is the "whole" form)
+                yield {"roots": copy.deepcopy(roots), "sizes": sizes, "funcs": [copy.deepcopy(f), *cons]}
     elif stage in SIZE_VARIANTS:
         yield from gen_map.pipelines(2, sizes=SIZE_VARIANTS[stage], shard=shard)
     else:
         raise ValueError(stage)
 
 
-STAGES = {"quick": ["1-function", "2-functions", "2-internal-axes-over-x[i]"],
+STAGES = {"quick": ["1-function", "2-functions", "2-internal-axes-over-x[i]", "fan-out-of-one-2D-array"],
           "thorough": ["1-function", "2-functions-all-storages", "2-internal-axes-all-roots", "rank3-and-2D-zip-roots", "sizes-111", "sizes-321",
-                       "sizes-133", "3-functions-chain"]}
-NCHUNK = {"1-function": 16, "2-functions": 240, "2-internal-axes-over-x[i]": 16, "2-functions-all-storages": 440, "2-internal-axes-all-roots": 200,
+                       "sizes-133", "3-functions-chain", "fan-out-of-one-2D-array"]}
+NCHUNK = {"fan-out-of-one-2D-array": 8, "1-function": 16, "2-functions": 240, "2-internal-axes-over-x[i]": 16, "2-functions-all-storages": 440, "2-internal-axes-all-roots": 200,
           "rank3-and-2D-zip-roots": 200, "sizes-111": 200, "sizes-321": 200, "sizes-133": 200, "3-functions-chain": 220}
 
 
@@ -237,6 +258,10 @@ def cases_of_stage(stage, spec, tier):
         yield {"spec": spec, "form": "list", "storage": {"c": "file_array", "": "shared_memory_dict"}, "folder": True}
     elif stage in ("2-internal-axes-all-roots", "rank3-and-2D-zip-roots"):
         yield {"spec": spec, "form": "list", "storage": "dict"}
+        yield {"spec": spec, "form": "ndarray", "storage": "file_array", "folder": True}
+    elif stage == "fan-out-of-one-2D-array":
+        for order in itertools.permutations(range(3)):
+            yield {"spec": spec, "form": "list", "storage": "dict", "order": list(order)}
         yield {"spec": spec, "form": "ndarray", "storage": "file_array", "folder": True}
     elif stage == "3-functions-chain":
         yield {"spec": spec, "form": "list", "storage": "dict"}
